@@ -69,3 +69,42 @@ package chancloser
 //@   site call CompleteCooperativeClose as fee: assert arg(5) == remoteProposedFee
 //@   site call ToSignature nth 0: assert has(c.priorFeeOffers, remoteProposedFee)
 //@   site call CombineClosingOpts: assert has(c.priorFeeOffers, remoteProposedFee)
+//@
+//@ // ---- RBF flow: a node completes the close with exactly the options it signed with (same payer,
+//@ // ---- same sequence, same scripts and fee), so the transaction it finalises is the one both signed
+//@ func (l *LocalCloseStart) ProcessEvent
+//@   props C17
+//@   loop * havoc
+//@   site call WithCustomSequence: assert arg(0) == 4294967293
+//@   site call WithCustomPayer: assert arg(0) == lntypes.Local
+//@   site call CreateCloseProposal: assert arg(closeOpt)[0] == ret(WithCustomSequence) && arg(closeOpt)[1] == ret(WithCustomPayer) &&
+//@        arg(localDeliveryScript) == l.LocalDeliveryScript && arg(remoteDeliveryScript) == l.RemoteDeliveryScript
+//@
+//@ func (l *LocalOfferSent) ProcessEvent
+//@   props C17
+//@   loop * havoc
+//@   site call WithCustomSequence: assert arg(0) == 4294967293
+//@   site call WithCustomPayer: assert arg(0) == lntypes.Local
+//@   site call CompleteCooperativeClose: assert arg(closeOpt)[0] == ret(WithCustomSequence) && arg(closeOpt)[1] == ret(WithCustomPayer) &&
+//@        arg(localDeliveryScript) == l.LocalDeliveryScript && arg(remoteDeliveryScript) == l.RemoteDeliveryScript &&
+//@        arg(proposedFee) == l.ProposedFee
+//@
+//@ func (l *RemoteCloseStart) ProcessEvent
+//@   props C17
+//@   loop * havoc
+//@   site call WithCustomSequence: assert arg(0) == 4294967293
+//@   site call WithCustomPayer: assert arg(0) == lntypes.Remote
+//@   // the close is completed with the very option slice that was signed with (its contents are pinned at the signing site)
+//@   site call CompleteCooperativeClose: assert arg(closeOpt) == chanOpts && called(createLocalCloseeSignature) &&
+//@        arg(localDeliveryScript) == l.LocalDeliveryScript && arg(remoteDeliveryScript) == l.RemoteDeliveryScript &&
+//@        arg(proposedFee) == msg.SigMsg.FeeSatoshis
+//@   site call createLocalCloseeSignature: assert arg(chanOpts) == chanOpts && arg(chanOpts)[0] == ret(WithCustomSequence) &&
+//@        arg(chanOpts)[1] == ret(WithCustomLockTime) && arg(chanOpts)[2] == ret(WithCustomPayer) &&
+//@        arg(localScript) == l.LocalDeliveryScript && arg(remoteScript) == l.RemoteDeliveryScript && arg(fee) == msg.SigMsg.FeeSatoshis
+//@   site call WithCustomLockTime: assert arg(0) == msg.SigMsg.LockTime
+//@
+//@ func createLocalCloseeSignature
+//@   props C17
+//@   loop * havoc
+//@   site call CreateCloseProposal: assert arg(closeOpt) == chanOpts && arg(proposedFee) == fee &&
+//@        arg(localDeliveryScript) == localScript && arg(remoteDeliveryScript) == remoteScript
